@@ -4,6 +4,7 @@
 package main
 
 import (
+	"encoding/json"
 	"flag"
 	"fmt"
 	"golang.org/x/tools/go/ssa"
@@ -93,6 +94,7 @@ func main() {
 	tags := flag.String("tags", "", "debug: build tags for -dump")
 	emit := flag.Bool("emit", false, "debug: print the raw emission sites per mode")
 	termsOf := flag.String("terms", "", "debug: print effects, returns and call argument terms of function spec")
+	variant := flag.String("variant", "", "internal: evaluate one stored variant directory (seeded/<id> or benign/<id>) for -property and print its result")
 	snapshot := flag.String("snapshot", "", "maintenance: record the declared objects of the tree as anchors.json (argument: commit id)")
 	flag.Parse()
 	if *repo != "" {
@@ -224,6 +226,17 @@ func main() {
 	if *prop == "" {
 		fmt.Fprintln(os.Stderr, "usage: loggcheck -property Cxx [-tier quick|thorough]")
 		os.Exit(2)
+	}
+	if *variant != "" {
+		f, ok := registry[*prop]
+		if !ok {
+			fmt.Fprintf(os.Stderr, "no checker registered for %s\n", *prop)
+			os.Exit(2)
+		}
+		res := runVariantsSerial(vdir, *prop, []string{*variant}, f)
+		b, _ := json.Marshal(res[0])
+		fmt.Printf("VARIANT-RESULT %s\n", b)
+		os.Exit(0)
 	}
 	known, err := loadKnown(filepath.Join(vdir, "known-findings.json"))
 	if err != nil {
